@@ -88,6 +88,20 @@ def rclass(r):
     return "fin"
 
 
+def mean_matches(stored, samples):
+    """stored residual == arithmetic mean of the samples, to rounding of the running average: 1e-12 relative to the size of the
+    samples (the mean itself can cancel to zero); exact for a single sample"""
+    with np.errstate(all="ignore"):
+        S = np.array(samples, dtype=float)
+        stored = np.asarray(stored, dtype=float)
+        if len(S) == 1:
+            return bool(np.array_equal(stored, S[0], equal_nan=True))
+        mean = np.mean(S, axis=0)
+        fin = S[np.isfinite(S)]
+        scale = float(np.max(np.abs(fin))) if fin.size else 0.0
+        return bool(np.allclose(stored, mean, rtol=1e-12, atol=1e-12 * scale + 1e-300, equal_nan=True))
+
+
 class Run(object):
     """State of one recorded solve."""
 
@@ -194,8 +208,7 @@ class Run(object):
             if k < 1 or k > len(p["rs"]):
                 rok = False
             else:
-                mean = np.mean(np.array(p["rs"][:k]), axis=0)
-                rok = bool(np.allclose(np.asarray(rvec, dtype=float), mean, rtol=1e-12, atol=1e-300, equal_nan=True))
+                rok = mean_matches(rvec, p["rs"][:k])
         return xok, rok, self._ook(xu, rvec, obj)
 
     def _ook(self, xu, rvec, obj):
@@ -586,8 +599,7 @@ def emit_return(run, s, kw, inputs_ok, extra_return):
             else:
                 scale = max(1.0, float(np.max(np.abs(x))), float(np.max(np.abs(p["x"]))), float(np.max(np.abs(P["x0"]))))
                 d["xok"] = bool(np.all(np.abs(x - p["x"]) <= 256 * EPS * scale))
-                mean = np.mean(np.array(p["rs"]), axis=0)
-                d["rok"] = bool(np.allclose(np.asarray(s.resid, dtype=float), mean, rtol=1e-12, atol=1e-300, equal_nan=True))
+                d["rok"] = mean_matches(s.resid, p["rs"])
                 d["objok"] = run._ook(x, s.resid, s.obj)
             # f(x0): objective at the first evaluation point (mean over its samples) -> the 'sufficiently small' threshold (C10)
             p1 = run.points.get(1)
